@@ -267,7 +267,7 @@ fn fault_class(f: &StoreFault, hl: usize) -> String {
 }
 
 impl A3 {
-    fn judge(&self, s: &Scn, structured: &[Structured], plains: &[Vec<u8>]) -> RunOut {
+    fn judge(&self, s: &Scn, structured: &[Structured], plains: &[Vec<u8>], base: &crate::alloc::Stats) -> RunOut {
         let mut out = RunOut::default();
         out.props = vec!["C03", "C04", "C09"];
         let fp = apply(structured, s.target, &s.faults);
@@ -280,7 +280,22 @@ impl A3 {
         };
         let min_cap = s.rs.caps.iter().copied().min().unwrap_or(usize::MAX).max(1);
         let trace = Trace::new(budget_for(fp.len() + 300, min_cap.min(64)) + 40 * (fp.len() as u64 / 32 + 1), false);
+        crate::alloc::start();
         let d = run_decrypt(&tmode, &fp, &s.rs, &WriteScript::default(), &trace, Some(monitor), None);
+        let mem = crate::alloc::stop();
+        // C09 boundedness, relative: rejecting (or accepting) F' must not cost more memory or more
+        // key derivations than decrypting the authentic target file through the same seams
+        let cs_allow = match &s.kind {
+            Kind::Hook { cs, .. } => *cs as i64,
+            _ => 65536,
+        };
+        let allowance = 65536 + 2 * cs_allow + 2 * fp.len() as i64;
+        if mem.peak > base.peak + allowance {
+            out.violations.push(viol("C09", "memory_raised_by_untrusted_field", format!("decrypting the damaged file peaked at {} live bytes; the authentic file needs {} (faults {:?})", mem.peak, base.peak, &s.faults[..s.faults.len().min(3)])));
+        }
+        if mem.big_allocs > base.big_allocs {
+            out.violations.push(viol("C09", "key_derivation_cost_raised", format!("{} allocations of >= 16 MiB (key derivations) vs {} for the authentic file", mem.big_allocs, base.big_allocs)));
+        }
         let t = trace.borrow();
         out.trace_hash = t.hash;
         out.steps = t.seq;
@@ -374,7 +389,7 @@ impl A3 {
         out
     }
 
-    fn prepare(&self, s: &Scn) -> (Vec<Structured>, Vec<Vec<u8>>) {
+    fn prepare(&self, s: &Scn) -> (Vec<Structured>, Vec<Vec<u8>>, crate::alloc::Stats) {
         let mut st = vec![];
         let mut pl = vec![];
         for f in &s.files {
@@ -382,7 +397,14 @@ impl A3 {
             st.push(a);
             pl.push(b);
         }
-        (st, pl)
+        // memory baseline: the authentic target file through the same seams
+        let flat = st[s.target].flat();
+        let tmode = mode_for(&s.kind, &s.files[s.target]);
+        let trace = Trace::new(u64::MAX / 2, false);
+        crate::alloc::start();
+        let _ = run_decrypt(&tmode, &flat, &s.rs, &WriteScript::default(), &trace, None, None);
+        let base = crate::alloc::stop();
+        (st, pl, base)
     }
 }
 
@@ -416,10 +438,11 @@ impl Family for A3 {
     fn properties(&self) -> &'static [&'static str] {
         &["C03", "C04", "C09"]
     }
-    fn budget(&self, tier: Tier, _p: &str) -> u64 {
-        match tier {
-            Tier::Quick => 400,
-            Tier::Thorough => 20000,
+    fn budget(&self, tier: Tier, p: &str) -> u64 {
+        let q = if p == "C03" { 400 } else { 200 };
+        q * match tier {
+            Tier::Quick => 1,
+            Tier::Thorough => 50,
         }
     }
     fn generate(&self, rng: &mut Rng, tier: Tier, _idx: u64) -> Scn {
@@ -458,7 +481,7 @@ impl Family for A3 {
         let enumerate = rng.chance(1, 2);
         let mut s = Scn { kind, files, target, faults: vec![], rs: ReadScript { caps, faults: vec![] }, enumerate, body_sample: if cs == 65536 { 6 } else { 0 }, max_enum: if tier == Tier::Quick { 4000 } else { 20000 } };
         if !enumerate {
-            let (st, _) = self.prepare(&s);
+            let (st, _, _) = self.prepare(&s);
             let n = rng.range(1, 4);
             for _ in 0..n {
                 s.faults.push(gen_fault(rng, &st, target, cs));
@@ -468,14 +491,14 @@ impl Family for A3 {
     }
 
     fn execute(&self, s: &Scn) -> RunOut {
-        let (st, pl) = self.prepare(s);
-        self.judge(s, &st, &pl)
+        let (st, pl, base) = self.prepare(s);
+        self.judge(s, &st, &pl, &base)
     }
 
     fn execute_all(&self, base: &Scn, emit: &mut dyn FnMut(Scn, RunOut)) {
-        let (st, pl) = self.prepare(base);
+        let (st, pl, mem_base) = self.prepare(base);
         if !base.enumerate {
-            emit(base.clone(), self.judge(base, &st, &pl));
+            emit(base.clone(), self.judge(base, &st, &pl, &mem_base));
             return;
         }
         let pass = matches!(base.kind, Kind::Pass { .. });
@@ -589,7 +612,7 @@ impl Family for A3 {
             let mut s = base.clone();
             s.faults = faults;
             s.enumerate = false;
-            let out = self.judge(&s, &st, &pl);
+            let out = self.judge(&s, &st, &pl, &mem_base);
             emit(s, out);
         }
     }
